@@ -85,6 +85,8 @@ def execute(case):
             kw = {}
             if out["hasiv"]:
                 kw["interval"] = tuple(out["iv"])
+            if sp is not None:
+                kw["start_pos"] = sp
             r = f.project(trans_fn=lambda c: s * c + o, **kw)
             out["ys"] = ylist(r, oids)
             out["ys2"] = ylist(r, oids)
